@@ -545,9 +545,14 @@ pub fn c12(case: &Case) -> Verdict {
                 return Fails(format!("try_into_sendable changed the plan: {:?} -> {:?}", before, sd.vx_shape()));
             }
         }
-        Err(_) => {
+        Err(d) => {
             if want.is_empty() {
                 return Fails("try_into_sendable failed although no thread-local system is registered".into());
+            }
+            // the dispatcher handed back by a refused conversion is the original one
+            let (st, tl) = d.vx_shape();
+            if tl != want.len() || st != before {
+                return Fails(format!("a refused try_into_sendable handed back a dispatcher with {} thread-local systems and plan {:?}; it had {} and {:?}", tl, st, want.len(), before));
             }
         }
     }
